@@ -147,6 +147,18 @@ def check_compose(root, spec, o=None):
             fails.append({'law': 'compose/classification-ground-truth',
                           'detail': f'{t[2]!r} ({t[0]}) is reported as {t[4]} / {t[5]} / {t[6]}, the rules say {e}'})
             break
+    if spec.get('expect_tags'):
+        for t in o['txns']:
+            e = spec['expect_tags'].get(t[2])
+            if e is not None and sorted(e) != sorted(t[7]):
+                fails.append({'law': 'compose/classification-ground-truth',
+                              'detail': f'{t[2]!r} ({t[0]}) carries tags {list(t[7])}, the rules say {sorted(e)}'})
+                break
+    if spec.get('expect_merchants') and o['html']['rc'] == 0:
+        got = dict(collections.Counter(t[4] for t in o['txns']))
+        if got != spec['expect_merchants']:
+            fails.append({'law': 'compose/classification-ground-truth',
+                          'detail': f"transactions per merchant {got}, the rules say {spec['expect_merchants']}"})
     # supplemental rows never appear as transactions
     supp_names = {s['name'] for s in spec['sources'] if s['supplemental']}
     if any(t[0] in supp_names for t in o['txns']):
@@ -155,6 +167,7 @@ def check_compose(root, spec, o=None):
 
 
 SOURCE_KINDS = ['delimiter', 'decimal_separator', 'sign', 'has_header', 'format', 'file']
+ROW_ORDER_KINDS = ['reverse']
 GLOBAL_KINDS = ['rule_mode', 'rules', 'transforms', 'views', 'supplemental']
 
 
@@ -209,6 +222,14 @@ def check_frame(root, spec, kind, i, variant, base=None):
         if a != b or len(base['txns']) != len(v['txns']):
             fails.append({'law': 'frame/ascii', 'detail': 'respelling non-ASCII descriptions changed other rows: '
                           + str(first_diff([list(x) for x in a], [list(x) for x in b])) + f' / {len(base["txns"])} vs {len(v["txns"])} transactions'})
+    elif kind == 'reverse':
+        # the order of the rows in a file governs no transaction's own merchant, amount or tags
+        # (a merchant's category is that of its last transaction by design, so it is not compared here)
+        a = sorted((t[0], t[1], t[2], t[3], t[4], t[7]) for t in base['txns'])
+        b = sorted((t[0], t[1], t[2], t[3], t[4], t[7]) for t in v['txns'])
+        if a != b:
+            fails.append({'law': 'frame/reverse', 'detail': f"reversing the rows of {spec['sources'][i]['name']} changed transactions: "
+                          + str(first_diff([list(x) for x in a], [list(x) for x in b]))})
     elif kind == 'rename':
         a, b = sorted(t[1:] for t in base['txns']), sorted(t[1:] for t in v['txns'])
         if a != b or base['sections'] != v['sections']:
@@ -319,7 +340,7 @@ def plan_toggles(spec, rnd, k):
     cands = []
     ns = [i for i, s in enumerate(spec['sources']) if not s['supplemental'] and s['state'] == 'present']
     for i in ns:
-        for kind in SOURCE_KINDS:
+        for kind in SOURCE_KINDS + ROW_ORDER_KINDS:
             cands.append((kind, i))
     for kind in ('rule_mode', 'rules', 'views', 'currency_format', 'layout'):
         cands.append((kind, None))
@@ -492,6 +513,35 @@ def corpus():
     vb = bud([S('Card', 'data/card.csv', copy.deepcopy(jan))], kind='rules', rules=['Netflix', 'Costco'], views=[list(B.VIEW_POOL[0]), list(B.VIEW_POOL[1])])
     vb['views_file'] = 'config/my-views.rules'
     out.append((vb, [], None))
+    # ---- rows that are identical except for a captured column, with a rule that reads field.<name>
+    def rl(name, match, cat, sub, tags=()):
+        return {'name': name, 'match': match, 'category': cat, 'subcategory': sub, 'merchant': '', 'tags': list(tags), 'let': [],
+                'field': [], 'priority': None}
+    for order in (('POS', 'WIRE', 'ACH', 'WIRE'), ('WIRE', 'POS', 'WIRE', 'ACH')):
+        rows = [R('2025-03-03', 'RENT PAYMENT', 4000, kind=k) for k in order] + [R('2025-03-04', 'GYM CLUB', 120, kind='POS')]
+        fb = bud([S('Bank', 'data/bank.csv', rows, cols=['date', 'kind', 'description', 'amount'])], kind='rules')
+        fb['rules']['rules'] = [rl('Wire', 'field.kind == "WIRE"', 'Banking', 'Wire', ['wire']), rl('Ach Tag', 'field.kind == "ACH"', '', '', ['ach']),
+                                rl('Rent', 'contains("RENT")', 'Housing', 'Rent')]
+        fb['expect_merchants'] = {'Wire': 2, 'Rent': 2, 'Gym Club': 1}
+        out.append((fb, [('reverse', 0)], None))
+        # the same through a description template (custom captures): the description is one capture, the rule reads another
+        rows = [dict(R('2025-03-03', 'RENT PAYMENT', 4000), type=k, merchant='RENT PAYMENT') for k in order]
+        tb = bud([S('Bank', 'data/bank.csv', rows, cols=['date', 'type', 'merchant', 'amount'], template='{merchant}')], kind='rules')
+        tb['rules']['rules'] = [rl('Wire', 'field.type == "WIRE"', 'Banking', 'Wire'), rl('Rent', 'contains("RENT")', 'Housing', 'Rent')]
+        tb['expect_merchants'] = {'Wire': 2, 'Rent': 2}
+        out.append((tb, [('reverse', 0)], None))
+    # ---- legacy merchant_categories.csv rows WITHOUT a category are tag-only rules: their tags count (income, transfer ...)
+    pay = [R('2025-01-31', 'ACME PAYROLL', -12000), R('2025-01-15', 'TRANSFER TO SAVINGS', 2000), R('2025-01-20', 'NETFLIX.COM', 62),
+           R('2025-01-21', 'MYSTERY SHOP', 300)]
+    tagcsv = [['ACME PAYROLL', '', '', '', 'income'], ['TRANSFER', 'Savings', '', '', 'transfer|savings'], ['NETFLIX', 'Netflix', 'Subscriptions', 'Streaming', 'fun'],
+              ['NETFLIX', '', '', '', 'recurring'], ['MYSTERY', 'Mystery', '', 'Oddities', 'odd']]
+    pb = bud([S('Bank', 'data/bank.csv', pay)], kind='csv', csv=tagcsv)
+    pb['expect_tags'] = {'ACME PAYROLL': ['income'], 'TRANSFER TO SAVINGS': ['transfer', 'savings'], 'NETFLIX.COM': ['fun', 'recurring'],
+                         'MYSTERY SHOP': ['odd']}
+    out.append((pb, [('rules', None)], None))
+    only = bud([S('Bank', 'data/bank.csv', copy.deepcopy(pay))], kind='csv', csv=[tagcsv[0]])     # nothing but one tag-only row
+    only['expect_tags'] = {'ACME PAYROLL': ['income'], 'NETFLIX.COM': []}
+    out.append((only, [], None))
     cb = bud([S('Chase', 'data/chase.csv', copy.deepcopy(jan))], kind='csv', csv=B.CSV_POOL[:4])
     cb['layout'] = 'symlink-decoy'
     out.append((cb, [('layout', None)], None))
